@@ -26,6 +26,7 @@ type Env struct {
 	callArg bool // names shadow everything (callee contract evaluated at a call site)
 	closed  bool // the result must be a closed term over bound variables (spec func body, quantifier body)
 	localsOK bool // local variables (latest tracked value) may be named (helper clauses labelled local-...)
+	tparams  map[string]types.Type // type parameter name -> type argument (contracts of generic functions)
 }
 
 var (
@@ -725,6 +726,9 @@ func (env *Env) call(n *ast.CallExpr) *Val {
 func (env *Env) evalType(x ast.Expr) types.Type {
 	switch n := x.(type) {
 	case *ast.Ident:
+		if t, ok := env.tparams[n.Name]; ok {
+			return t // type parameter of the generic function whose contract is evaluated
+		}
 		if obj := env.pkg.Scope().Lookup(n.Name); obj != nil {
 			return obj.Type()
 		}
@@ -768,14 +772,14 @@ func (env *Env) absMap(name string, args []ast.Expr) *Val {
 	e := env.e
 	o := env.eval(args[0])
 	k := env.eval(args[1])
-	ks := e.sortOf(k.Ty)
-	if k.Ty == tUInt {
-		ks = "Int"
-	}
+	// the view lives in the heap (same components as Go maps, keyed by the
+	// object's reference), so contracts can update it: `modifies mview(x)`
 	if name == "mhas" {
-		f := quoteSym("amh$" + ks)
-		e.declOnce("fun:"+f, fmt.Sprintf("(declare-fun %s (Int %s) Bool)", f, ks))
-		return &Val{T: sx(f, o.T, k.T), Ty: tBool}
+		_, _, mh, mhs, ok := e.mviewComps(o.Ty)
+		if !ok {
+			specErr("mhas: %v is not a two-parameter map-like type", o.Ty)
+		}
+		return &Val{T: and(not(eq(o.T, "0")), sx("select", sx("select", e.heapGet(env.st, mh, mhs), o.T), k.T)), Ty: tBool}
 	}
 	var vt types.Type
 	if id, ok := args[2].(*ast.Ident); ok && env.names[id.Name] != nil {
@@ -784,9 +788,30 @@ func (env *Env) absMap(name string, args []ast.Expr) *Val {
 		vt = env.evalType(args[2])
 	}
 	vs := e.sortOf(vt)
-	f := quoteSym("amv$" + ks + "$" + vs)
-	e.declOnce("fun:"+f, fmt.Sprintf("(declare-fun %s (Int %s) %s)", f, ks, vs))
-	return &Val{T: sx(f, o.T, k.T), Ty: vt}
+	_ = vs
+	mv, mvs, _, _, ok := e.mviewComps(o.Ty)
+	if !ok {
+		specErr("mval: %v is not a two-parameter map-like type", o.Ty)
+	}
+	return &Val{T: sx("select", sx("select", e.heapGet(env.st, mv, mvs), o.T), k.T), Ty: vt}
+}
+
+// mviewComps: the heap components of the abstract map view of object x, from
+// the two type arguments of its (generic) map-like type: LockedMap[K,V],
+// *ShardedMap[K,V], ...
+func (e *Engine) mviewComps(t types.Type) (mv, mvs, mh, mhs string, ok bool) {
+	t = types.Unalias(t)
+	if p, isP := t.Underlying().(*types.Pointer); isP {
+		if _, named := t.(*types.Named); !named {
+			t = types.Unalias(p.Elem())
+		}
+	}
+	n, isN := t.(*types.Named)
+	if !isN || n.TypeArgs() == nil || n.TypeArgs().Len() != 2 {
+		return
+	}
+	mv, mvs, mh, mhs = e.mapComps(types.NewMap(n.TypeArgs().At(0), n.TypeArgs().At(1)))
+	return mv, mvs, mh, mhs, true
 }
 
 func (e *Engine) lenOf(st *State, v *Val) string {
